@@ -248,14 +248,25 @@ func (s *Sim) Go(name string, fn func()) {
 		s.lock()
 		s.taskSet(id, name)
 		s.unlock()
+		defer func() {
+			s.lock()
+			s.taskDel(id)
+			s.live--
+			s.unlock()
+			s.signal()
+		}()
 		s.Yield("start", "")
 		fn()
-		s.lock()
-		s.taskDel(id)
-		s.live--
-		s.unlock()
-		s.signal()
 	}()
+}
+
+// Stopped reports whether the controller has ended the run.
+//
+//go:norace
+func (s *Sim) Stopped() bool {
+	s.lock()
+	defer s.unlock()
+	return s.stopped
 }
 
 // Adopt registers the calling goroutine (one the code under test created, such
@@ -315,6 +326,11 @@ func (s *Sim) Coin(site, detail string) bool {
 //go:norace
 func (s *Sim) Yield(pt, detail string) {
 	s.lock()
+	if s.stopped && (pt == "start" || pt == "op") && s.taskName(goid()) != "" {
+		// the run is over: a harness task ends at its next own yield
+		s.unlock()
+		runtime.Goexit()
+	}
 	if !s.armed || s.stopped {
 		s.unlock()
 		return
@@ -345,6 +361,14 @@ func (s *Sim) Yield(pt, detail string) {
 	raceOff()
 	<-p.ch
 	raceOn()
+	if pt == "start" || pt == "op" {
+		s.lock()
+		st := s.stopped
+		s.unlock()
+		if st && name != "" {
+			runtime.Goexit()
+		}
+	}
 }
 
 // Run drives the bubble until all managed tasks finished and nothing is
@@ -367,6 +391,12 @@ func (s *Sim) Run() {
 			close(p.ch)
 			raceOn()
 		}
+		// let the released goroutines finish what they are in the middle of
+		// (nothing sleeps while holding a lock at this point) before the caller
+		// starts tearing the system down
+		raceOff()
+		synctest.Wait()
+		raceOn()
 		s.RC.SimTime += time.Since(s.start)
 	}()
 	idleSince := time.Duration(-1)
